@@ -73,7 +73,7 @@ func c05BodyAlphabet(p, q string) []string {
 		"mm = {}; mm[" + p + "] = " + p + "; gw = mm", "gw = [" + p + ", {" + p + ": " + p + "}]", "aa = [0, 0, 0, 0]; aa[1] = " + p + "; gw = aa",
 		// evaluation order with side effects on the parameter; the parameter as a list-loop variable; called; a closure
 		// over it read inside a counted loop that reuses its name
-		p + " + ++" + p, p + " + (" + p + " = 5)", "{" + p + ": ++" + p + "}", "[" + p + ", " + p + "++, " + p + "]", "for " + p + " = [5, 6] { println(" + p + ") }", p + "()",
+		"gw = " + p + " + ++" + p, "gw = " + p + " + (" + p + " = 5)", "gw = {" + p + ": ++" + p + "}", "gw = [" + p + ", ++" + p + ", " + p + "]", "gw = " + p + " * 10 + (" + p + " = " + p + " + 1)", "gw = h(" + p + ") - h(++" + p + ")", "for " + p + " = [5, 6] { println(" + p + ") }", p + "()",
 		"g = func() { " + p + " }; for " + p + " = 2 { println(g()) }",
 		// the value of a loop expression is the last value of its body
 		"gw = for i = 4 { if i == 2 { break }; i }", "gw = for " + p + " = 3 { " + p + " }", "gw = [for i = 0:3 { i }, for j = 2 { " + p + " }]", "gw = for i = 3 { " + p + " = " + p + " + 1; " + p + " - 1 }",
@@ -113,6 +113,13 @@ func c05FnPrograms(thorough bool, f func(fam, src string) bool) bool {
 			alt2[i] = "fi"[i%2]
 		}
 		pats = append(pats, string(alt2))
+	}
+	// repeated parameter names (rejected by the parser: the same verdict in both configurations)
+	for _, src := range []string{"func f(p, p) { p }\nprintln(f(1, 2))", "f = (p, p) => p + 1\nprintln(f(1, 2))", "func f(p, q, p) { [p, q] }\nprintln(f(1, 2, 3))",
+		"f = func(p, p) { p = p + 1; p }\nprintln(f(1, 2.5))", "func f(p, .., p) { p }\nprintln(f(1, 2))", "m = macro(p, p) { quote(unquote(p)) }\nprintln(m(1, 2))"} {
+		if !f("fn", src) {
+			return false
+		}
 	}
 	for pi, pat := range pats {
 		k := len(pat)
